@@ -249,6 +249,51 @@ let run_history_line (line : string) =
    invariant is evaluated on every configuration, as long as the per-step
    hypotheses [step_ok] hold *)
 let inv_configs = ref 0 and inv_hist = ref 0 and inv_cut = ref 0 and inv_bad = ref 0
+let cov : (string, int) Hashtbl.t = Hashtbl.create 64
+let hit k = Hashtbl.replace cov k (1 + (try Hashtbl.find cov k with Not_found -> 0))
+let act_name a = match String.index_opt (str_act a) ' ' with
+  | Some i -> String.sub (str_act a) 0 i | None -> str_act a
+let bucket n = if n <= 1 then "1" else if n = 2 then "2" else if n = 3 then "3" else "4+"
+(* which branch of the machine a step takes *)
+let classify_step (c : config) (out : outcome) =
+  let mode = if c.unw then "unw:" else "" in
+  match c.stack with
+  | [] -> ()
+  | f :: _ ->
+    (match f, out with
+     | FDropStrong _, Running c' ->
+         let pushed = List.length c'.stack - (List.length c.stack - 1) in
+         (match c'.stack with
+          | FInners es :: _ when pushed = 2 -> hit (mode ^ "drop:group-of-" ^ bucket (List.length es))
+          | FDtorStart _ :: FAfterValue o :: _ when pushed = 2 ->
+              let had = (match List.nth_opt c.st.heap_of (int_of_nat o) with
+                         | Some { links = Some (_ :: _); _ } -> true | _ -> false) in
+              hit (mode ^ (if had then "drop:last-with-adoptions" else "drop:last-plain"))
+          | _ ->
+              let traced = List.length c'.st.log > List.length c.st.log in
+              if c'.st.heap_of = c.st.heap_of then hit (mode ^ "drop:dead-handle")
+              else hit (mode ^ (if traced then "drop:decrement-trace-not-orphaned" else "drop:decrement-no-trace")))
+     | FDropStrong _, _ -> hit (mode ^ "drop:halt")
+     | FDtorStart _, _ -> hit (mode ^ "frame:dtor-start")
+     | FRunDtor (_, []), _ -> hit (mode ^ "frame:script-end")
+     | FRunDtor (_, a :: _), Running c' ->
+         if c'.unw && not c.unw then hit "script:panic-starts-unwinding"
+         else hit (mode ^ "script:" ^ act_name a)
+     | FRunDtor (_, a :: _), Halted (_, HAbort) -> hit (mode ^ "script:" ^ act_name a ^ ":abort")
+     | FRunDtor (_, a :: _), _ -> hit (mode ^ "script:" ^ act_name a ^ ":halt")
+     | FDropSlots [], _ -> hit (mode ^ "frame:slots-done")
+     | FDropSlots (SStrong _ :: _), _ -> hit (mode ^ "frame:slot-strong")
+     | FDropSlots (SWeak _ :: _), _ -> hit (mode ^ "frame:slot-weak")
+     | FDropSlots (SEmpty :: _), _ -> hit (mode ^ "frame:slot-empty")
+     | FAfterValue o, Running c' ->
+         let fr = (match List.nth_opt c'.st.heap_of (int_of_nat o) with Some b -> b.freed | None -> false) in
+         hit (mode ^ (if fr then "frame:after-value-frees" else "frame:after-value-keeps-box"))
+     | FAfterValue _, _ -> hit (mode ^ "frame:after-value:halt")
+     | FInners [], _ -> hit (mode ^ "frame:inners-done")
+     | FInners _, _ -> hit (mode ^ "frame:inners-next")
+     | FTableDrop _, _ -> hit (mode ^ "frame:table-drop")
+     | FFinishGroup _, _ -> hit (mode ^ "frame:finish-group")
+     | FRes _, _ -> hit (mode ^ "frame:result"))
 
 let run_inv_line (line : string) =
   match String.split_on_char '|' line with
@@ -269,7 +314,7 @@ let run_inv_line (line : string) =
           | [] -> if c.unw then Some c.st else Some c.st
           | _ ->
             if not (step_ok c) then (incr inv_cut; None)
-            else match step pri c with
+            else let out = step pri c in classify_step c out; match out with
               | Running c' -> if n > 200000 then None else steps idx (n + 1) pri c'
               | Finished (s, _) -> Some s
               | Halted (_, h) ->
@@ -285,8 +330,9 @@ let run_inv_line (line : string) =
             let first = match op with
               | OAct a -> exec_act s None a
               | ONewS (d, sc) -> exec_new s None d sc in
+            (match op with OAct a -> hit ("call:" ^ act_name a) | ONewS _ -> hit "call:news");
             (match first with
-             | AHalt HAbort -> ()
+             | AHalt HAbort -> hit "call:abort" 
              | AHalt h -> incr inv_bad; Printf.printf "INV %s op=%d first fault=%s\n" id idx (str_halt h)
              | APanicOut -> go (idx + 1) s rest
              | AO (s1, _, _, push) ->
@@ -305,7 +351,8 @@ let run_inv () =
     done
   with End_of_file -> ());
   Printf.printf "INVSUMMARY histories=%d configs=%d cut_by_hypothesis=%d violations=%d\n"
-    !inv_hist !inv_configs !inv_cut !inv_bad
+    !inv_hist !inv_configs !inv_cut !inv_bad;
+  Hashtbl.iter (fun k v -> Printf.printf "COV %s %d\n" k v) cov
 
 let run_all () =
   try
